@@ -127,8 +127,14 @@ def step (st : St) (line : String) : St × List String :=
     let implWs := implS.splitOn " " |>.filter (· ≠ "")
     match parseCells implWs, evalReq (st.scan, st.poll) req with
     | some impl, some ((scan', poll'), model, spec?) =>
-      let st := { st with scan := scan', poll := poll' }
-      let out : List String := []
+      -- trace monitors run on what the IMPLEMENTATION returned (the monitor's clock is the one before this request)
+      let (poll'', monFails) := match req with
+        | "pp" :: rest =>
+          let (p, f) := monitorReq { poll' with now := st.poll.now } rest impl
+          ({ p with now := poll'.now }, f)
+        | _ => (poll', [])
+      let st := { st with scan := scan', poll := poll'', mon := st.mon + monFails.length }
+      let out : List String := monFails.map (fun f => s!"MON {st.lines} {reqS} :: {f}")
       let (st, out) :=
         if impl ≠ model then
           ({ st with corr := st.corr + 1 },
